@@ -65,6 +65,7 @@ let run_case (c : case) =
     | ["cmpmod"; m] -> h.cmod <- int_of_string m
     | ["cmpmode"; _] -> ()
     | ["ptrrep"; _] -> ()
+    | ["nestclear"; _] -> ()
     | _ ->
       (match parse_op w with
        | None -> Printf.printf "badop %s\n" (S.concat " " w); dead := true
